@@ -18,4 +18,6 @@ Extraction "extracted/thrift_ext.ml"
   ParquetMetaSem.to_tval_file_metadata ParquetMetaSem.to_tval_page_header
   ParquetMetaSem.norm_file_metadata ParquetMetaSem.norm_page_header
   ParquetMetaSem.wfb_file_metadata ParquetMetaSem.wfb_page_header
+  ThriftModel.write_uuid ThriftModel.write_set_begin ThriftModel.read_set_begin ThriftModel.read_uuid
+  ThriftModel.read_string ThriftModel.skip_field
   ThriftModel.e_out ThriftSpec.spec_decode ThriftSpec.spec_encode.
